@@ -105,11 +105,11 @@ CLAIMS = {
          'mechanical numpy->Lean extraction + Lean 4/Mathlib proofs of the definitional identities; bounded triple-enumeration oracle for loop-based routines', '5/C09'),
  'C10': ('exploration',
          'Partly deductive: Lean proofs over the extracted real source (all n) of 11 reductions: strengths = degrees on 0/1 input (und, dir), in = out = degree on symmetric input, '
-         'clustering_coef_wd = _bd and transitivity_wd = _bd on 0/1 input, _wd = _wu on symmetric input, transitivity_wu = _bu and _bd = _bu on symmetric 0/1 input. distance_wei = distance_bin (distance matrices) on every 0/1 matrix is a corollary over the two proved contracts '
+         'clustering_coef_wd = _bd and transitivity_wd = _bd on 0/1 input, _wd = _wu on symmetric input, transitivity_wu = _bu and _bd = _bu on symmetric 0/1 input. distance_wei = distance_bin (distance matrices) and efficiency_wei = efficiency_bin (global variant) on every 0/1 matrix are corollaries over the proved contracts '
          '(contracts/corollaries.py: the calls replaced by the clause lists of the callee contracts, which are verified in the same run; Lean: wd_binary_smt, weighted distance = hop distance when every connection has length 1). The loop-based pairs '
-         '(the edge-count output of distance_wei, betweenness, edge betweenness, efficiency global/local, assortativity, clustering_coef_wu/bu and bd/bu, ignores-weights routines) are BOUNDED only: both routines evaluated on the '
+         '(the edge-count output of distance_wei, betweenness, edge betweenness, local efficiency, assortativity, clustering_coef_wu/bu and bd/bu, ignores-weights routines) are BOUNDED only: both routines evaluated on the '
          'same matrix for all 0/1 matrices n<=3/5 and symmetric weighted matrices n<=5. Level claimed is exploration because most pairs named in the property are bounded.',
-         BND_NOTE % 'C10' + LX, 'Lean proofs for the algebraic pairs; pyvc corollary over the proved contracts of distance_wei / distance_bin; pairwise comparison on exhaustive small scopes (bounded) for the other loop-based pairs', '5/C10'),
+         BND_NOTE % 'C10' + LX, 'Lean proofs for the algebraic pairs; pyvc corollaries over the proved contracts of distance_wei / distance_bin and efficiency_wei / efficiency_bin; pairwise comparison on exhaustive small scopes (bounded) for the other loop-based pairs', '5/C10'),
  'C04': ('exploration',
          'Partly deductive: Lean proofs over the extracted real source (all n, every permutation sigma of Fin n) of renumbering equivariance/invariance for 16 algebraic measures (degrees, strengths, densities, '
          'clustering_coef_bd/wd/wu, four transitivities, given-partition modularity_und/_dir) — 17 theorems. All loop-based, LAPACK-based and tie-breaking measures (71 registry entries: distances, '
